@@ -6,8 +6,8 @@
 From Coq Require Import List ZArith Bool Arith.
 Import ListNotations.
 From RV Require Import Gen.GenTermination Model.Retry Model.Machine Proofs.MachineP.
-From RV Require Import Gen.GenFactsPersist Gen.GenFactsBuild Gen.GenPar Model.Par Proofs.ParP.
-From Coq Require Import Permutation.
+From RV Require Import Gen.GenFactsPersist Gen.GenFactsBuild Gen.GenPar Model.Par Proofs.ParP Proofs.SchedP.
+From Coq Require Import Permutation Lia.
 
 (** Any two orders that finish run r leave it in the same state (same invocations recorded, same
     failure counters, same samples) and produce the same sequence of process starts and recordings
@@ -34,6 +34,63 @@ Proof.
   rewrite session_trace_no127 by exact H. reflexivity.
 Qed.
 Print Assumptions C11_local.
+
+(** The schedulers themselves.  Model.batch_run / rr_run / rnd_run (compared event by event with the real
+    BatchScheduler, RoundRobinScheduler and RandomScheduler, the latter on the observed random choices)
+    are sessions over picks from the work list, and with enough fuel - the sum over the runs of
+    (invocations still to record + 7 failures, +1) plus the length of the list, for the random scheduler
+    also that many choices - they finish every run of the list, for EVERY list of random choices (every
+    seed). *)
+Theorem C11_schedulers_are_sessions_and_finish :
+  forall w loaded fuel choice,
+    let g0 := ginit loaded in
+    let todo := unfinished_at_start w g0 in
+    gmeas w g0 + length todo <= fuel -> fuel <= length choice ->
+    (exists ps, batch_run w fuel g0 todo = session w ps g0 /\ forall p, In p ps -> In p todo)
+    /\ (exists ps, rr_run w fuel g0 todo = session w ps g0 /\ forall p, In p ps -> In p todo)
+    /\ (exists ps, rnd_run w fuel choice g0 todo = session w ps g0 /\ forall p, In p ps -> In p todo)
+    /\ forall r, In r todo ->
+         fin_at (batch_run w fuel g0 todo) r /\ fin_at (rr_run w fuel g0 todo) r /\ fin_at (rnd_run w fuel choice g0 todo) r.
+Proof.
+  intros w loaded fuel choice g0 todo Hf Hc.
+  assert (Hb : forall r, In r todo -> r < w_n w).
+  { intros r Hr. unfold todo, unfinished_at_start in Hr. apply filter_In in Hr. destruct Hr as [Hr _]. apply in_seq in Hr. lia. }
+  split; [apply batch_is_session|]. split; [apply rr_is_session|]. split; [apply rnd_is_session|].
+  intros r Hr. split; [|split].
+  - apply batch_finishes; assumption.
+  - apply rr_finishes; assumption.
+  - apply rnd_finishes; assumption.
+Qed.
+Print Assumptions C11_schedulers_are_sessions_and_finish.
+
+(** Hence (no exit status 127, see below): under batch, round-robin and random with ANY choices every run of
+    the work list ends in the same state, with the same sequence of process starts and recordings. *)
+Theorem C11_schedulers_agree :
+  forall w loaded fuel choice1 choice2 r,
+    let g0 := ginit loaded in
+    let todo := unfinished_at_start w g0 in
+    no127 w -> gmeas w g0 + length todo <= fuel -> fuel <= length choice1 -> fuel <= length choice2 -> In r todo ->
+    let b := batch_run w fuel g0 todo in
+    let rr := rr_run w fuel g0 todo in
+    let r1 := rnd_run w fuel choice1 g0 todo in
+    let r2 := rnd_run w fuel choice2 g0 todo in
+    g_loc rr r = g_loc b r /\ g_loc r1 r = g_loc b r /\ g_loc r2 r = g_loc b r
+    /\ starts_recs r (g_trace rr) = starts_recs r (g_trace b)
+    /\ starts_recs r (g_trace r1) = starts_recs r (g_trace b)
+    /\ starts_recs r (g_trace r2) = starts_recs r (g_trace b).
+Proof.
+  intros w loaded fuel choice1 choice2 r g0 todo Hn Hf Hc1 Hc2 Hr b rr r1 r2.
+  destruct (C11_schedulers_are_sessions_and_finish w loaded fuel choice1 Hf Hc1) as [[pb [Eb _]] [[pr [Er _]] [[p1 [E1 _]] F1]]].
+  destruct (C11_schedulers_are_sessions_and_finish w loaded fuel choice2 Hf Hc2) as [_ [_ [[p2 [E2 _]] F2]]].
+  destruct (F1 r Hr) as [Fb [Frr Fr1]]. destruct (F2 r Hr) as [_ [_ Fr2]].
+  fold g0 todo in Eb, Er, E1, E2, Fb, Frr, Fr1, Fr2. unfold b, rr, r1, r2.
+  rewrite Eb, Er, E1, E2 in *.
+  destruct (seq_order_free w pr pb g0 r Hn Frr Fb) as [A1 A2].
+  destruct (seq_order_free w p1 pb g0 r Hn Fr1 Fb) as [B1 B2].
+  destruct (seq_order_free w p2 pb g0 r Hn Fr2 Fb) as [C1 C2].
+  repeat split; assumption.
+Qed.
+Print Assumptions C11_schedulers_agree.
 
 (** Exit status 127, the order-independent part: once a member of a group got 127, every other
     member is finished and is never started afterwards. *)
@@ -106,3 +163,16 @@ Example C11_example :
   /\ starts_recs 0 (g_trace g2) = starts_recs 0 (g_trace g1)
   /\ blds (g_trace g1) = [7%nat] /\ blds (g_trace g2) = [7%nat].
 Proof. vm_compute. repeat split; reflexivity. Qed.
+
+(** Non-vacuity of the scheduler theorems: the fuel bound is met by 40 steps for the example world, and the
+    three schedulers (two lists of random choices) end with the same starts and recordings for run 0. *)
+Example C11_schedulers_example :
+  let g0 := ginit (fun _ => (0, 0)%Z) in
+  let todo := unfinished_at_start ex_world g0 in
+  gmeas ex_world g0 + length todo <= 40
+  /\ starts_recs 0 (g_trace (batch_run ex_world 40 g0 todo)) = [GStart 1; GRec 1 1; GStart 2; GStart 2; GRec 2 1]
+  /\ starts_recs 0 (g_trace (rr_run ex_world 40 g0 todo)) = starts_recs 0 (g_trace (batch_run ex_world 40 g0 todo))
+  /\ starts_recs 0 (g_trace (rnd_run ex_world 40 (repeat 1 40) g0 todo)) = starts_recs 0 (g_trace (batch_run ex_world 40 g0 todo))
+  /\ starts_recs 0 (g_trace (rnd_run ex_world 40 (seq 0 40) g0 todo)) = starts_recs 0 (g_trace (batch_run ex_world 40 g0 todo)).
+Proof. vm_compute. repeat split; try reflexivity. lia. Qed.
+
